@@ -541,7 +541,22 @@ def normalise_negated_tests(tree):
     -> ``B if c else A``: which arm is written first carries no meaning (an
     ``elif`` is just an ``if`` nested in the else arm)."""
     n = 0
+
+    def neg(t):
+        if isinstance(t, ast.UnaryOp) and isinstance(t.op, ast.Not):
+            return t.operand
+        if isinstance(t, ast.BoolOp):      # De Morgan
+            return ast.copy_location(ast.BoolOp(
+                op=ast.And() if isinstance(t.op, ast.Or) else ast.Or(),
+                values=[neg(v) for v in t.values]), t)
+        return ast.copy_location(ast.UnaryOp(op=ast.Not(), operand=t), t)
     for node in ast.walk(tree):
+        # `if c: pass else: B`  ->  `if not c: B`
+        if isinstance(node, ast.If) and node.orelse and \
+                all(isinstance(s, ast.Pass) for s in node.body):
+            node.test = neg(node.test)
+            node.body, node.orelse = node.orelse, []
+            n += 1
         while isinstance(node, ast.If) and node.orelse and \
                 isinstance(node.test, ast.UnaryOp) and isinstance(node.test.op, ast.Not):
             node.test = node.test.operand
